@@ -60,6 +60,16 @@ def base_script(kind, code, arrival, a, b):
         steps.append(("reset", 2))
         steps.append(("recv", [fr]))
         steps.append(("timer",))
+    elif arrival == "quick-again":
+        # a request answered in time, a second request shortly before the first one's timeout would have expired, its answer shortly after
+        # that instant (well within its own timeout)
+        steps.append(("reset", 1))
+        steps.append(("recv", [rstack(11)]))
+        steps.append(("advance", 4800))
+        steps.append(("reset", 2))
+        steps.append(("advance", 700))
+        steps.append(("recv", [fr]))
+        steps.append(("timer",))
     elif arrival in ("inflight", "inflight-sep"):
         # a DATA frame is in flight (unacknowledged) when the reset is requested; its acknowledgement and the RSTACK arrive in one read /
         # in two reads (an in-flight frame that is never acknowledged keeps its number across the RSTACK - a named deviation, not exercised here)
@@ -120,6 +130,8 @@ def run_steps(steps):
                 await rig.startup(st[1])
             elif st[0] == "timer":
                 await rig.timer()
+            elif st[0] == "advance":
+                await rig.advance(st[1])
             elif st[0] == "lost":
                 await rig.lose(st[1])
     return gwrig.run_script(script)
@@ -144,7 +156,7 @@ def run(ctx: Ctx):
                     invariants=("CompletesOnlyOnSoftware", "OtherCodesAreFailure", "WaitersReleased", "SecondResetJoins"),
                     required_actions=("Reset", "Startup", "DoRstack", "DoRstackLost", "DoError", "Timeout", "DoLost"))
     rng = ctx.rng
-    arrivals = ("before", "intime", "after", "twice", "joined", "again", "startup", "startup+reset", "inflight", "inflight-sep")
+    arrivals = ("before", "intime", "after", "twice", "joined", "again", "startup", "startup+reset", "inflight", "inflight-sep", "quick-again")
     codes = list(range(256)) if not ctx.quick else [11, 0, 1, 2, 3, 6, 9, 0x51, 0x80, 0xFF] + [rng.randrange(256) for _ in range(6)]
     ecodes = [c_ for c_ in range(0x50, 256)] if not ctx.quick else [0x51, 0x52, 0x80, 0xFF]
     pairs = [(a, b) for a in range(8) for b in range(8)] if not ctx.quick else [(0, 0), (3, 5), (7, 7), (1, 0), (0, 6)]
